@@ -233,6 +233,7 @@ class MultiWorld:
             world.sleeps[0] += 1
         ports.sleep = fake_sleep
         ports.random.shuffle = lambda x: None
+        self.sublist = list(subs)       # the caller's own list, as handed to multi_send / multi_receive
 
     def restore(self):
         import mido.ports as ports
@@ -247,7 +248,7 @@ def execute_multi(kind, progs, policy, max_steps):
     def body_for_multi(prog, t):
         def body(results):
             for op in prog:
-                port = world.ports[op[-1]]
+                port = world.ports[op[-1]] if op[0] in ('send', 'recv', 'iterp') else None
                 if op[0] == 'send':
                     m = mk(op[1])
                     sent.append((t, op[-1], m, m.copy()))
@@ -255,6 +256,21 @@ def execute_multi(kind, progs, policy, max_steps):
                     results.append(('sent',))
                 elif op[0] == 'recv':
                     results.append(('got', port.receive(block=bool(op[1]))))
+                elif op[0] == 'msend':
+                    # the helper functions on the caller's list of ports (the polling order is NOT the list order here: see below)
+                    import mido.ports as P
+                    m = mk(op[1])
+                    sent.append((t, 0, m, m.copy()))
+                    P.multi_send(world.sublist, m)
+                    results.append(('sent',))
+                elif op[0] == 'mrecv':
+                    import mido.ports as P
+                    acc = []
+                    partial[t] = acc
+                    for m in P.multi_receive(world.sublist, block=False):
+                        acc.append(m)
+                    results.append(('list', acc))
+                    partial[t] = []
                 else:
                     acc = []
                     partial[t] = acc
@@ -263,6 +279,10 @@ def execute_multi(kind, progs, policy, max_steps):
                     results.append(('list', acc))
                     partial[t] = []
         return body
+    helpers = any(op[0] in ('msend', 'mrecv') for p in progs for op in p)
+    if helpers:
+        import mido.ports as P
+        P.random.shuffle = lambda x: x.reverse()        # a polling order that differs from the list order, every time
     try:
         sc.start([body_for_multi(p, t) for t, p in enumerate(progs)])
         cur_t, spins = None, 0
@@ -340,6 +360,14 @@ def execute_multi(kind, progs, policy, max_steps):
                                 first.append(k)
                         if first != [k for k in mine_ if k in first]:
                             fail = ('order', 'MultiPort scenario: messages of sender %d on port %d left queue %d in the order %r, sent %r (schedule %r)' % (t, e, d, seen, mine_, trace))
+        if fail is None and complete:
+            # a message sent through the MultiPort (or multi_send) reaches EVERY sub-port exactly once
+            for t, pidx, m, c in sent:
+                if pidx == 0:
+                    for d_ in (1, 2):
+                        cnt = [key(x) for x in world.poplogs[d_]].count(key(c)) + [key(x) for x in world.real[d_]].count(key(c))
+                        if cnt != 1:
+                            fail = ('fan-out', 'MultiPort scenario: the message %r sent to all sub-ports reached sub-port %d %d times (schedule %r)' % (key(c), d_, cnt, trace))
         if fail is None:
             # what ONE receiver gets from ONE sender (on one port) comes in the order it was sent
             for t in range(len(progs)):
@@ -351,7 +379,7 @@ def execute_multi(kind, progs, policy, max_steps):
                         got_t += [key(m) for m in r[1]]
                 got_t += [key(m) for m in partial.get(t, [])]
                 for u in range(len(progs)):
-                    for e in range(3):
+                    for e in (1, 2):          # sent on a sub-port: the message exists once (one sent through the MultiPort exists once PER sub-port; its order is checked per queue above)
                         mine_ = [key(c) for tt, pidx, _, c in sent if tt == u and pidx == e]
                         idx = [mine_.index(k) for k in got_t if k in mine_]
                         if any(a > b for a, b in zip(idx, idx[1:])):
@@ -522,7 +550,8 @@ def job(j):
         else:
             runs = [execute_multi(kind, progs, random_policy(rng, rng.choice([0.1, 0.3, 0.6])), arg[1]) for _ in range(arg[0])]
             exhausted = False
-        fan_in = all((op[0] == 'send' and op[-1] >= 1) or (op[0] != 'send' and op[-1] == 0) for p in progs for op in p)
+        helper_use = any(op[0] in ('msend', 'mrecv') for p in progs for op in p)
+        fan_in = not helper_use and all((op[0] == 'send' and op[-1] >= 1) or (op[0] != 'send' and op[-1] == 0) for p in progs for op in p)
         if fan_in:
             # senders on the sub-ports, receivers on the MultiPort: this is what Model/ConcMulti.v describes - replay every run on it
             cache, cases = {}, []
@@ -533,7 +562,7 @@ def job(j):
                     cases.append(c)
             rec = core.eval_cases(COMP_MULTI, cases, lambda c: cache[tuple(c)])
             return (kind, mode, exhausted, len(runs)), rec
-        fan_out = all((op[0] == 'send' and op[-1] == 0) or (op[0] != 'send' and op[-1] >= 1) for p in progs for op in p)
+        fan_out = not helper_use and all((op[0] == 'send' and op[-1] == 0) or (op[0] != 'send' and op[-1] >= 1) for p in progs for op in p)
         if fan_out:
             # senders on the MultiPort, receivers on the sub-ports: this is what Model/ConcFan.v describes - replay every run on it
             cache, cases = {}, []
@@ -628,6 +657,10 @@ def run(out):
         [[('send', m1, 1)], [('send', m2, 2)], [('recv', 1, 0)], [('recv', 0, 1)]],                       # via the MultiPort and directly
         [[('send', m1, 0), ('send', m2, 1)], [('iterp', 0)], [('recv', 0, 2), ('recv', 0, 0)]],
     ]
+    multi_progs += [
+        [[('msend', m1)], [('mrecv',)], [('recv', 0, 1)]],                                                # the helper functions on one shared list of ports
+        [[('msend', m1), ('msend', m2)], [('mrecv',), ('mrecv',)]],
+    ]
     for progs in multi_progs:
         # the three-in-a-row program needs two preemptions (the sender held back after two sends, a poller between its two looks at the queue)
         deep = len(progs[0]) == 3
@@ -646,7 +679,7 @@ def run(out):
                 '(depth-first, stateless), for %d larger ones seeded random and priority schedules; each executed schedule is replayed on the model (same thread ids, same '
                 'steps) and the per-thread results, the final queue, the device buffer and the number of sleeps are compared; the oracle checks on the real run: no exception, '
                 'nothing lost / duplicated / invented, per-sender order, received objects are copies. MultiPort (fan-in from and fan-out to two EchoPorts, every lock and deque '
-                'scheduled): the same oracle on the real run; pure fan-in runs are replayed on ConcMulti.v, pure fan-out runs on ConcFan.v, mixed use is not modelled. Non-trivial: every run; distinct by schedule.'
+                'scheduled): the same oracle on the real run; pure fan-in runs are replayed on ConcMulti.v, pure fan-out runs on ConcFan.v, mixed use and the helper functions multi_send / multi_receive on a shared list of ports (polled in an order other than the list order) are not modelled. Non-trivial: every run; distinct by schedule.'
                 % (len(small), 2 if quick else 3, len(more)))
     from props import c10_copy
     ncopy = c10_copy.run(out, rng)
@@ -659,4 +692,7 @@ def run(out):
     out.assumptions += ['CPython runs one bytecode of one thread at a time (GIL) and the methods of collections.deque and threading.RLock are atomic; what a thread does between two '
                         'accesses to the lock, the deque, the device or sleep() touches nothing shared - so interleaving at those accesses covers every interleaving',
                         'the scheduler replaces the port\'s RLock, deque and sleep by stand-ins with the same behaviour plus a yield point; DummyLock is left as it is',
-                        'threads that are still waiting when the step bound is reached are torn down; such runs are compared up to that point']
+                        'threads that are still waiting when the step bound is reached are torn down; such runs are compared up to that point',
+                        'the copy theorems (SendCopy.v) speak about sequential histories of creating, editing, sending and receiving objects: the copy is made inside send(), '
+                        'under the port\'s lock, so the interleaving theorems and the copy theorems compose; a caller editing an object WHILE its own send() of it runs is outside both',
+                        'what a port adds to its own deque inside _receive (MultiPort) is treated as one access to the deque, whether spelt as one extend() or as an append() per message']
